@@ -3,6 +3,7 @@ import Gimli.Lemmas.OpTotal
 import Gimli.Lemmas.Capacity
 import Gimli.Lemmas.SimRun
 import Gimli.Lemmas.IterWrap
+import Gimli.Lemmas.RunLimit
 /-!
 # C07 — Expression decoding and evaluation equal the DWARF stack machine
 
@@ -141,6 +142,21 @@ theorem iter_limit_terminates (m : Nat) (hm : m + 1 < 2 ^ 32) (fuel : Nat) (s : 
     (hmax : s.cfg.maxIterations = some m) (hit : s.iteration ≤ m) (hf : m + 2 ≤ fuel + s.iteration) :
     (evaluateInternal fuel s).Normal :=
   evalInternal_terminates m hm fuel s hmax hit hf
+
+/-- **`iter_limit`** over any sequence of resume answers. A whole run — `evaluate()`, then one
+`resume_with_*` per request, answers from an arbitrary script `toks` — of an evaluator with
+`max_iterations = m`, given `m + 2` fuel per call: never runs out of fuel (it ends with a result,
+`TooManyIterations` or another error, or at the end of the script), and the state it ends in has
+executed at most `m` operations in total (`iteration ≤ m`) and decoded at most two per iteration. -/
+theorem iter_limit_run (m : Nat) (hm : m + 1 < 2 ^ 32) (fuel : Nat) (hf : m + 2 ≤ fuel) (toks : List Tok) (s : Eval)
+    (hmax : s.cfg.maxIterations = some m) (hit : s.iteration ≤ m) :
+    (run fuel toks s).2.1 ≠ .diverged ∧
+      ∀ e, (run fuel toks s).2.2 = some e →
+        e.iteration ≤ m ∧ e.decodes - s.decodes ≤ 2 * (e.iteration - s.iteration) := by
+  obtain ⟨h1, h2⟩ := run_limit m hm fuel hf toks s hmax hit
+  refine ⟨h1, fun e he => ?_⟩
+  obtain ⟨h3, h4⟩ := h2 e he
+  exact ⟨h3, by omega⟩
 
 /-- **`iter_limit` is false for `max_iterations = u32::MAX`** (finding C07-2; the reason for the
 hypothesis `m + 1 < 2^32` above). On the endless loop `DW_OP_skip -3` with that limit, in a build
